@@ -146,8 +146,6 @@ impl Default for MonotonicTimestampGenerator {
 impl TimestampGenerator for MonotonicTimestampGenerator {
     fn next_timestamp(&self) -> i64 {
         loop {
-            #[cfg(scylla_verif)]
-            crate::verif::trace::emit("ts", "TsBegin", &[]);
             let last = self.last.load(Ordering::SeqCst);
             #[cfg(scylla_verif)]
             crate::verif::trace::emit("ts", "TsLoad", &[("v", last)]);
